@@ -421,3 +421,91 @@ void h_threads_reset(void) {
             pthread_cond_wait(&wcv, &wmu);
     pthread_mutex_unlock(&wmu);
 }
+
+/* ------------------------------------------------------------ reader threads (blocking in recvfrom) */
+enum { W_BLOCKED = 4 };
+static long recv_calls;
+int h_thread_create_nowait(void *(*fn)(void *), void *arg, void **handle) {
+    struct hthread *t = calloc(1, sizeof(*t));
+    t->fn = fn;
+    t->arg = arg;
+    t->state = W_RUNNING;
+    t->gen = wgen;
+    pthread_mutex_lock(&wmu);
+    t->next = threads;
+    threads = t;
+    pthread_mutex_unlock(&wmu);
+    if (pthread_create(&t->th, NULL, trampoline, t))
+        return -1;
+    pthread_detach(t->th);
+    *handle = t;
+    return 0;
+}
+/* called by the reader thread just before it blocks in the kernel */
+void h_mark_blocked(void) {
+    struct hthread *t = self;
+    if (!t)
+        return;
+    pthread_mutex_lock(&wmu);
+    if (t->gen != wgen) { /* dead world: leave */
+        t->state = W_DONE;
+        pthread_cond_broadcast(&wcv);
+        pthread_mutex_unlock(&wmu);
+        pthread_exit(NULL);
+    }
+    t->state = W_BLOCKED;
+    recv_calls++;
+    pthread_cond_broadcast(&wcv);
+    pthread_mutex_unlock(&wmu);
+}
+void h_mark_running(void) {
+    struct hthread *t = self;
+    if (!t)
+        return;
+    pthread_mutex_lock(&wmu);
+    t->state = W_RUNNING;
+    pthread_mutex_unlock(&wmu);
+}
+/* park the calling harness thread until released */
+void h_park_self(void) {
+    if (self)
+        park(self, W_PARKED);
+}
+long h_recv_calls(void) { return recv_calls; }
+/* wait until the thread is parked, or blocked again after at least one more receive call; returns state (1 parked, 4 blocked, -1 timeout) */
+int h_thread_wait_parked_or_blocked(void *h, long calls_before, int timeout_ms) {
+    struct hthread *t = h;
+    struct timespec ts;
+    int r = 0;
+    clock_gettime(CLOCK_REALTIME, &ts);
+    ts.tv_sec += timeout_ms / 1000;
+    ts.tv_nsec += (timeout_ms % 1000) * 1000000L;
+    if (ts.tv_nsec >= 1000000000L) {
+        ts.tv_sec++;
+        ts.tv_nsec -= 1000000000L;
+    }
+    pthread_mutex_lock(&wmu);
+    while (!(t->state == W_PARKED || t->state == W_DONE || (t->state == W_BLOCKED && recv_calls > calls_before))) {
+        if (pthread_cond_timedwait(&wcv, &wmu, &ts)) {
+            r = -1;
+            break;
+        }
+    }
+    if (!r)
+        r = t->state;
+    pthread_mutex_unlock(&wmu);
+    return r;
+}
+/* release a parked thread and wait until it is blocked in the kernel (or parked/done) again */
+int h_thread_release_until_blocked(void *h) {
+    struct hthread *t = h;
+    long before;
+    pthread_mutex_lock(&wmu);
+    before = recv_calls;
+    if (t->state == W_PARKED) {
+        t->go = 1;
+        pthread_cond_broadcast(&wcv);
+    }
+    pthread_mutex_unlock(&wmu);
+    return h_thread_wait_parked_or_blocked(t, before, 5000);
+}
